@@ -1262,12 +1262,18 @@ def translate_bounding_box(S):
     S.ensure("encloses-the-translated-domain", z3.Implies(A.in_pred(y, p), z3.And([z3.And(b[2 * i] <= x[i], x[i] <= b[2 * i + 1]) for i in range(2)])), hy + [A.box_fact(y, p)])
 
 
-@scenario("C18", [ROT + ".bounding_box"], configs=["angle-const/none"])
+@scenario("C18", [ROT + ".bounding_box"], configs=["angle-const/none", "pivot-const/none"])
 def rotate_bounding_box(S):
     """post: encloses the rotated domain (the image of the inner box under the rotation)"""
     A = abstract_domain(S, "A", S.new(R2, "x"))
     a0 = S.real("angle0")
-    dom = S.call(S.getattr(S.find(ROT), "from_angles"), A.obj, a0)
+    if S.cfg.startswith("pivot"):
+        piv = [S.real("pivot0"), S.real("pivot1")]
+        dom = S.call(S.getattr(S.find(ROT), "from_angles"), A.obj, a0, rotate_around=list(piv))
+        pv = [p_.t for p_ in piv]
+    else:
+        dom = S.call(S.getattr(S.find(ROT), "from_angles"), A.obj, a0)
+        pv = [z3.RealVal(0), z3.RealVal(0)]
     box = S.method(dom, "bounding_box").val
     ok = box.rank == 1 and box.shape[0].concrete() == 4
     S.ensure("flat-2dim-vector", ok)
@@ -1276,5 +1282,6 @@ def rotate_bounding_box(S):
     b = [zreal(box.at([(j,)])) for j in range(4)]
     y = [z3.Real("py0"), z3.Real("py1")]
     c, s = tlib.cos_sin(a0.t)
-    x = [c * y[0] - s * y[1], s * y[0] + c * y[1]]
+    dy = [y[0] - pv[0], y[1] - pv[1]]
+    x = [c * dy[0] - s * dy[1] + pv[0], s * dy[0] + c * dy[1] + pv[1]]
     S.ensure("encloses-the-rotated-domain", z3.Implies(A.in_pred(y, []), z3.And([z3.And(b[2 * i] <= x[i], x[i] <= b[2 * i + 1]) for i in range(2)])), [A.box_fact(y, [])])
